@@ -26,6 +26,18 @@ CHECKS = {
              "gap_ii >= 0 under C_V>0 (nlsat on the code polynomial for the small shape, composed with the identity for larger ones).",
         note="As C01. The sign query for shapes above 12 live modes is discharged on the composed form (identity + square).",
         design="3/C02"),
+    "C10": dict(
+        engine="symnum+z3",
+        technique="symbolic execution of the real voigt.py constructors on finite-domain symbolic integers (forking executor; z3 "
+                  "decides feasibility of every branch, hashing concretises by forking); per-path solver obligations; CrossHair "
+                  "cross-check of the two-index conditions in the thorough tier",
+        text="Complete over the finite box: the executor partitions (-3..12)^4, (-3..12)^2 and -3..12 into paths of the real "
+             "constructors; z3 shows every rejecting path contains no valid tuple; the accepting paths (exactly 81 / 36 / 9 / 6) "
+             "are tallied against a symmetry-orbit oracle (equality and hash classes, 21 keys, multiplicity = class size, 3/3/15, "
+             "Voigt table, string/int/2-index/4-index spellings, file-column spellings).",
+        note="Trusted: executor + z3 feasibility answers (an 'unknown' is reported, never ignored); the oracle (orbits of the "
+             "minor/major symmetries and the Voigt table quoted in the property). Indices outside -3..12 are outside the claim.",
+        design="3/C10"),
 }
 
 NOT_APPLICABLE = {
